@@ -19,6 +19,12 @@ dominator = closest strict dominator, Cytron's definition of the dominance front
 removal on paths to the exit, reachability by transitive closure - as formulas over the same booleans,
 discharged by the solver on every path.
 
+Sparse families (6..8 nodes): Lengauer-Tarjan's path compression only does something on deeper depth-first
+trees than 5 nodes give, so `dominators-sparse` fixes a spanning tree (all nodes reachable, no premise) and
+makes the set of extra edges symbolic (one boolean per candidate pair, at most k present or all subsets of
+a seeded candidate subset), run for both successor-set iteration orders; only the LT-dependent queries are
+compared there (idom, dominates, strictly_dominates, dominance frontier).
+
 Honest note: this is symbolic execution degenerating to solver-driven bounded-exhaustive enumeration of
 labelled graphs (every algorithm here inspects every edge, so one path = one graph).
 """
@@ -34,24 +40,36 @@ BOUNDS = {
                             "loops, n=4 without self loops",
               "post-dominators": "n<=4 with self loops; exit = node n-1 is a sink reachable from every node",
               "CfgInfo (ir blocks)": "n<=3 blocks with self loops, n=4 without; out-degree <= 2",
+              "dominators-sparse": "6 nodes: chain 0->1->..->5 plus every set of <= 3 extra edges out of the 25 other "
+                                   "ordered pairs (2 626 graphs), successor sets iterated in descending node index; "
+                                   "the same with <= 2 extra edges (326 graphs) in ascending index",
               "exhaustive": "yes (all jobs drain their queue)"},
     "thorough": {"dominators": "n<=4 with self loops (38 912 graphs), n=5 without self loops (745 472 graphs, 255 jobs)",
                  "post-dominators": "n<=4 with self loops, n=5 without self loops (31 550 graphs)",
                  "CfgInfo (ir blocks)": "n<=4 blocks with self loops, out-degree <= 2",
+                 "dominators-sparse": "fixed spanning tree + symbolic set of extra edges (any ordered pair i != j), both "
+                                      "set-iteration orders (ascending / descending node index): 7-node chain with <= 4 "
+                                      "extras (66 712 graphs per order), 6-node chain and one VERIF_SEED-chosen random "
+                                      "spanning tree with <= 4 extras (15 276 each), 8-node chain with <= 3 extras "
+                                      "(19 650), and for n = 6, 7, 8 two VERIF_SEED-chosen 12-element candidate subsets "
+                                      "with all 4 096 subsets each; jobs time-boxed at SPARSE_BUDGET_S=150 s",
                  "time box": "each 5-node job stops after THOROUGH_BUDGET_S=90 s; a job that did not drain its queue is "
                              "reported in evidence (per_harness: 'TIME-BOXED: k paths explored, m subtrees left', "
                              "coverage.exhaustive=false); on an idle 16-core machine all jobs drain (about 5 min), "
                              "VERIF_SEED permutes the edge decision order, i.e. which part is explored first"},
 }
-OUTSIDE = ["graphs with 6 or more nodes; self loops on 5-node graphs", "graphs with nodes unreachable from the entry",
+OUTSIDE = ["graphs with 6 or more nodes other than the sparse families (spanning tree + few extra edges / sampled "
+           "candidate subsets, see BOUNDS); graphs with more than 8 nodes; self loops on graphs with 5 or more nodes", "graphs with nodes unreachable from the entry",
            "post-dominance when some node cannot reach the exit or the exit has successors",
            "ControlFlowGraph.calculate_loops, relooper", "orders of set iteration other than ascending node index "
            "(covered up to relabelling of the graph only)"]
 ASSUMPTIONS = [
     "degenerate symbolic execution: inputs are the adjacency booleans; exploration enumerates labelled graphs, the "
     "solver prunes graphs violating the reachability premise and discharges the oracle formulas",
-    "nodes are a harness subclass of ControlFlowNode whose __hash__ is the node index, so that set iteration "
-    "order (successor/predecessor sets) is reproducible on replay; all other behaviour is ppci's",
+    "nodes are a harness subclass of ControlFlowNode whose __hash__ is the node index (or the reversed index in "
+    "the 'desc' runs of the sparse families), so that set iteration order (successor/predecessor sets) is "
+    "reproducible on replay; all other behaviour is ppci's.  For the exhaustive families the ascending order covers "
+    "the descending one by relabelling the non-entry nodes",
     "definitions of dominance, immediate dominator, dominance frontier, post-dominance: ref/domdef.py "
     "(validated against brute-force simple-path enumeration on random graphs when it was written)",
     "post-dominator premise: the exit node has no successors (true of every CFG built by ir_function_to_graph) and is "
@@ -59,6 +77,7 @@ ASSUMPTIONS = [
 ]
 SHIMS_USED = ["isinstance"]
 JOB_TIMEOUT = {"quick": 170, "thorough": 1700}
+SPARSE_BUDGET_S = 150         # per sparse-family job (6..8 nodes)
 THOROUGH_BUDGET_S = 90        # per 5-node job (about 250 jobs over 16 processes: <= 25 min in total)
 
 
@@ -145,9 +164,13 @@ class _GraphHarness(Harness):
         from ppci.graph import cfg as cfgmod
         n = self.n
 
+        desc = getattr(self, "order", "asc") == "desc"
+
         class Node(cfgmod.ControlFlowNode):
+            # sets of small ints iterate in ascending hash order: "asc" = successors/predecessors are
+            # visited in ascending node index, "desc" = in descending node index
             def __hash__(self):
-                return self.index
+                return (n - 1 - self.index) if desc else self.index
 
         g = cfgmod.ControlFlowGraph()
         nodes = []
@@ -358,7 +381,160 @@ class CfgInfoHarness(_GraphHarness):
         return {"cfginfo-dominance-frontier": sym_and(_eq_matrix(F, r["df"], n), r["nodes_ok"], r["keys"] == n)}
 
 
-KINDS = {"dom": DomHarness, "pdom": PostDomHarness, "cfginfo": CfgInfoHarness}
+def sparse_shape(n, tree, m, subset):
+    """(tree edges, candidate extra edges) of a sparse family.
+    tree = 0: chain 0->1->...->n-1; otherwise the random recursive tree drawn from Random(tree) (parent of i is a
+    node < i).  Candidates: every other ordered pair i != j (back, forward and cross edges); with m > 0 only
+    the m pairs drawn from Random(subset)."""
+    import random
+    if tree == 0:
+        t = [(i - 1, i) for i in range(1, n)]
+    else:
+        r = random.Random(tree * 1000 + n)
+        t = [(r.randrange(0, i), i) for i in range(1, n)]
+    cands = [(i, j) for i in range(n) for j in range(n) if i != j and (i, j) not in t]
+    if m:
+        cands = sorted(random.Random(subset * 1000 + n).sample(cands, m))
+    return t, cands
+
+
+def _at_most(xs, k):
+    """at most k of the booleans xs are true - purely propositional (sequential counter, shared sub-terms):
+    ge[j] = 'at least j+1 of the xs seen so far are true'"""
+    ge = [False] * (k + 1)
+    for x in xs:
+        new = list(ge)
+        for j in range(k + 1):
+            prev = True if j == 0 else ge[j - 1]
+            new[j] = sym_or(ge[j], sym_and(x, prev))
+        ge = new
+    return sym_not(ge[k])
+
+
+class SparseDomHarness(DomHarness):
+    """Larger graphs (6..8 nodes) than the exhaustive families can reach: a fixed spanning tree (so every
+    node is reachable without a premise) plus a SYMBOLIC set of extra edges, one boolean per candidate pair;
+    either all candidates with at most k extra edges present (cardinality premise), or all subsets of an
+    m-element candidate subset.  Successor/predecessor sets are iterated in ascending or descending node
+    index (`order`) - the depth-first numbering and hence Lengauer-Tarjan's path compression depend on it and
+    the fixed spanning tree is not closed under relabelling."""
+    kind = "dominators-sparse"
+
+    def __init__(self, n, tree=0, k=3, m=0, subset=0, order="asc", fixed=0, nfixed=0, first=None, rest=False,
+                 merged=True):
+        self.n = n
+        self.tree, self.k, self.m, self.subset, self.order = tree, k, m, subset, order
+        self.fixed, self.nfixed, self.merged = fixed, nfixed, merged
+        # job splitting of the cardinality-bounded family: candidates before index `first` are absent and
+        # candidate `first` is present (rest=False) / free like all later ones (rest=True); None = no split
+        self.first = first
+        self.rest = rest
+        self.selfloops = False
+        self.seed = 0
+        self.tree_edges, self.cands = sparse_shape(n, tree, m, subset)
+        self.name = (f"{self.kind}[n={n},tree={tree},{'extras<=%d' % k if not m else 'subset=%d/%d' % (subset, m)},"
+                     f"{order}{',fixed=%d/%d' % (fixed, nfixed) if nfixed else ''}"
+                     f"{',first%s%d' % ('>=' if rest else '=', first) if first is not None else ''}]")
+        self.params = dict(n=n, tree=tree, k=k, m=m, subset=subset, order=order, fixed=fixed, nfixed=nfixed,
+                           first=first, rest=rest, merged=merged)
+        self._formulas = None
+        self._premise = None
+
+    def pairs(self):
+        return self.tree_edges + self.cands
+
+    def inputs(self, mk):
+        n = self.n
+        a = [[False] * n for _ in range(n)]
+        for i, j in self.tree_edges:
+            a[i][j] = True
+        xs = []
+        first = self.first
+        for c, (i, j) in enumerate(self.cands):
+            if first is not None and c < first:
+                a[i][j] = False
+            elif first is not None and c == first and not self.rest:
+                a[i][j] = True
+            elif c < self.nfixed:
+                a[i][j] = bool((self.fixed >> c) & 1)
+            else:
+                a[i][j] = mk.bool(f"a_{i}_{j}")
+            xs.append(a[i][j])
+        if not self.m:
+            # at most k extra edges
+            if getattr(mk, "symbolic", False):
+                if self._premise is None:
+                    self._premise = _at_most(xs, self.k)
+                mk.assume(self._premise)
+            else:
+                mk.assume(sum(1 for x in xs if x) <= self.k)
+        return dict(a=a)
+
+
+    # only what depends on the Lengauer-Tarjan result (the fixed-point implementation, reachability and the
+    # node-method aliases are covered by the exhaustive families and cost time on larger graphs)
+    def oracle(self, a, n):
+        D = domdef.dominators(a, n, 0)
+        return dict(D=D, S=domdef.strict(D, n), I=domdef.immediate(D, n),
+                    F=domdef.dominance_frontier(a, n, 0, D))
+
+    def run(self, inp):
+        from ppci.graph import lt
+        n = self.n
+        g, nodes = self.build(inp["a"])
+        ix = {nd: i for i, nd in enumerate(nodes)}
+        rng = range(n)
+        res = {}
+        idom = lt.calculate_idom(g, g.entry_node)
+        res["lt_idom"] = [ix[idom[nd]] if nd in idom else -1 for nd in nodes]
+        res["idom"] = [(-1 if g.get_immediate_dominator(nd) is None else ix[g.get_immediate_dominator(nd)])
+                       for nd in nodes]
+        res["dom"] = [[bool(g.dominates(nodes[i], nodes[j])) for j in rng] for i in rng]
+        res["sdom"] = [[bool(g.strictly_dominates(nodes[i], nodes[j])) for j in rng] for i in rng]
+        g.calculate_dominance_frontier()
+        res["df"] = [[nodes[j] in g.df[nodes[i]] for j in rng] for i in rng]
+        res["df_keys"] = sorted(ix[k] for k in g.df)
+        return res
+
+    def facts(self, f, r, n):
+        return {
+            "lt-idom": _eq_function(f["I"], r["lt_idom"], n),
+            "cfg-idom": _eq_function(f["I"], r["idom"], n),
+            "dominates": _eq_matrix(f["D"], r["dom"], n),
+            "strictly-dominates": _eq_matrix(f["S"], r["sdom"], n),
+            "dominance-frontier": sym_and(_eq_matrix(f["F"], r["df"], n), r["df_keys"] == list(range(n))),
+        }
+
+
+KINDS = {"dom": DomHarness, "pdom": PostDomHarness, "cfginfo": CfgInfoHarness, "sparse": SparseDomHarness}
+
+
+def mk_sparse(**kw):
+    return SparseDomHarness(**kw)
+
+
+def _split_sparse(n, tree, order, k=0, m=0, subset=0, nfixed=0, budget=None, tail=1200):
+    """jobs of one sparse family.  Cardinality-bounded (m == 0): one job per 'first present candidate edge'
+    (sizes fall off polynomially instead of one job holding almost everything) until at most `tail` graphs
+    remain, which form the last job.  Dense subset (m > 0): the first nfixed candidate booleans are fixed."""
+    kws = []
+    if m:
+        for f in range(1 << nfixed):
+            kws.append(dict(n=n, tree=tree, k=0, m=m, subset=subset, order=order, fixed=f, nfixed=nfixed))
+    else:
+        import math
+        ncand = len(sparse_shape(n, tree, 0, 0)[1])
+        first = 0
+        while first < ncand:
+            remaining = ncand - first
+            if sum(math.comb(remaining, x) for x in range(k + 1)) <= tail:
+                break
+            kws.append(dict(n=n, tree=tree, k=k, m=0, subset=0, order=order, first=first, rest=False))
+            first += 1
+        kws.append(dict(n=n, tree=tree, k=k, m=0, subset=0, order=order, first=first, rest=True))
+    if budget:
+        return [("mk_boxed", dict(kind="sparse", budget=budget, **kw)) for kw in kws]
+    return [("mk_sparse", kw) for kw in kws]
 
 
 def mk_dom(**kw):
@@ -434,12 +610,23 @@ def jobs(tier, seed):
         for kind in ("dom", "pdom", "cfginfo"):
             small.append(("mk_" + kind, dict(n=n, selfloops=True)))
     if tier == "quick":
+        js += _split_sparse(6, 0, "desc", k=3)
+        js += _split_sparse(6, 0, "asc", k=2)
         js += _split("dom", 4, False, 3)
         js += _split("pdom", 4, True, 2)
         js += _split("cfginfo", 4, False, 2)
         js += small
     else:
         # the 5-node runs are time-boxed per job (budget in seconds); see BOUNDS
+        b = SPARSE_BUDGET_S
+        for order in ("desc", "asc"):
+            js += _split_sparse(7, 0, order, k=4, budget=b)
+            js += _split_sparse(6, 0, order, k=4, budget=b)
+            js += _split_sparse(6, seed + 1, order, k=4, budget=b)       # seeded random spanning tree
+            js += _split_sparse(8, 0, order, k=3, budget=b, tail=2500)
+            for n in (6, 7, 8):
+                for sub in (2 * seed + 1, 2 * seed + 2):                    # seeded dense candidate subsets
+                    js += _split_sparse(n, 0, order, m=12, subset=sub, nfixed=2, budget=b)
         js += _split("dom", 5, False, 8, budget=THOROUGH_BUDGET_S, seed=seed)
         js += _split("pdom", 5, False, 4, budget=THOROUGH_BUDGET_S, seed=seed)
         js += _split("dom", 4, True, 4)
